@@ -72,6 +72,81 @@ impl DriftTables {
     }
 }
 
+#[cfg(feature = "verif-hooks")]
+#[doc(hidden)]
+pub mod verif_drift {
+    //! Verification hook: build the crate-private [`DriftTables`] from literal
+    //! data (seconds, meters, radians) and call the real, private lookup.
+    use super::*;
+    use uom::si::angle::radian;
+    use uom::si::length::meter;
+    use uom::si::time::second;
+
+    pub struct VerifDriftTables(DriftTables);
+
+    impl VerifDriftTables {
+        /// `tables[k] = (knots (t, r, lorentz), z upper bound)`.
+        pub fn new(tables: &[(&[(f64, f64, f64)], f64)]) -> Self {
+            let mut outer = Vec::with_capacity(tables.len());
+            let mut k = 0;
+            while k < tables.len() {
+                let (knots, z) = tables[k];
+                let mut inner = Vec::with_capacity(knots.len());
+                let mut i = 0;
+                while i < knots.len() {
+                    let (t, r, c) = knots[i];
+                    inner.push((
+                        Time::new::<second>(t),
+                        Length::new::<meter>(r),
+                        Angle::new::<radian>(c),
+                    ));
+                    i += 1;
+                }
+                outer.push((DriftTable(inner), Length::new::<meter>(z)));
+                k += 1;
+            }
+            Self(DriftTables(outer))
+        }
+        /// The tables shipped with the crate (the `lazy_static` instance).
+        pub fn shipped() -> Self {
+            Self(DRIFT_TABLES.clone())
+        }
+        /// Number of z slices.
+        pub fn len(&self) -> usize {
+            self.0 .0.len()
+        }
+        /// Raw contents of slice `k`: knots as (s, m, rad) and z bound in m.
+        pub fn raw(&self, k: usize) -> (Vec<(f64, f64, f64)>, f64) {
+            let (table, z) = &self.0 .0[k];
+            (
+                table
+                    .0
+                    .iter()
+                    .map(|&(t, r, c)| (t.get::<second>(), r.get::<meter>(), c.get::<radian>()))
+                    .collect(),
+                z.get::<meter>(),
+            )
+        }
+        /// Real `DriftTables::at`. `Ok((r [m], correction [rad]))`,
+        /// `Err(true)` for a drift time error, `Err(false)` for an axial
+        /// position error.
+        pub fn at(&self, z: f64, t: f64) -> Result<(f64, f64), bool> {
+            match self.0.at(Length::new::<meter>(z), Time::new::<second>(t)) {
+                Ok((r, c)) => Ok((r.get::<meter>(), c.get::<radian>())),
+                Err(TryDriftLookupError::DriftTimeOutOfRange(_)) => Err(true),
+                Err(TryDriftLookupError::AxialPositionOutOfRange(_)) => Err(false),
+            }
+        }
+        /// Real `DriftTable::at` of slice `k` (no z selection).
+        pub fn table_at(&self, k: usize, t: f64) -> Option<(f64, f64)> {
+            match self.0 .0[k].0.at(Time::new::<second>(t)) {
+                Ok((r, c)) => Some((r.get::<meter>(), c.get::<radian>())),
+                Err(_) => None,
+            }
+        }
+    }
+}
+
 const TABLE_BYTES: &[u8] =
     include_bytes!("../data/simulation/drift_table/drift_1T_70Ar_30CO2.json");
 
